@@ -6,7 +6,7 @@ From Sismic Require Import Base Chart Interp World Spec.
 From SismicProofs Require Import C17Proofs.
 From SismicProofs Require CorollaryProofs.
 From Sismic Require Import Edit Copy.
-From SismicProofs Require EditProofs CopyProofs.
+From SismicProofs Require EditProofs CopyProofs WrapProofs.
 Import ListNotations.
 Open Scope string_scope.
 
@@ -383,3 +383,175 @@ Theorem check_ccase_bit4_thm :
           EditProofs.sound (cc_guest c) -> cc_res c = EOk -> EditProofs.sound (cc_post c)).
 Proof. exact CopyProofs.check_ccase_bit4. Qed.
 Print Assumptions check_ccase_bit4_thm.
+
+(* EMBEDDING. The host shape used by the check: a statechart c placed under a new compound root h (wrap c h; no code, no contracts, no transitions of its own). For a chart satisfying wrap_ok (decidable: wrap_okb; in particular the root has no final child), an evaluator that does not see h and any listeners: execute_once on the wrapped chart from the wrapped state returns exactly the result of c (same macro step - event, transitions, exited/entered lists, sent events - or the same error) and the wrapped post-state *)
+Theorem C17_wrap_step_thm :
+  forall (c : chart) (r h : name),
+         WrapProofs.wrap_ok c r h ->
+         forall (ctx X : Type) (exec_code exec_code' : call ctx -> ctx -> option (ctx * list event))
+           (eval_code eval_code' : call ctx -> ctx -> option bool) (emit : Z -> meta -> X -> X * option err),
+         (forall (cl : call ctx) (x : ctx), exec_code' (WrapProofs.wrap_call h cl) x = exec_code cl x) ->
+         (forall (cl : call ctx) (x : ctx), eval_code' (WrapProofs.wrap_call h cl) x = eval_code cl x) ->
+         forall (t0 : Z) (fuel : nat) (now : Z) (s : mstate ctx X),
+         WrapProofs.wrap_inv c ctx X s ->
+         WrapProofs.root_active r ctx X s ->
+         execute_once ctx X exec_code' eval_code' emit (WrapProofs.wrap c h) fuel now
+           (WrapProofs.wrap_mstate h t0 s) =
+         (WrapProofs.wrap_mstate h t0 (fst (execute_once ctx X exec_code eval_code emit c fuel now s)),
+          snd (execute_once ctx X exec_code eval_code emit c fuel now s)) /\
+         WrapProofs.wrap_inv c ctx X (fst (execute_once ctx X exec_code eval_code emit c fuel now s)) /\
+         (forall m : option macrostep,
+          snd (execute_once ctx X exec_code eval_code emit c fuel now s) = inl m ->
+          WrapProofs.root_active r ctx X (fst (execute_once ctx X exec_code eval_code emit c fuel now s))).
+Proof. exact WrapProofs.C17_wrap_step. Qed.
+Print Assumptions C17_wrap_step_thm.
+
+(* the same for queue() *)
+Theorem C17_wrap_queue_thm :
+  forall (c : chart) (r h : name),
+         WrapProofs.wrap_ok c r h ->
+         forall (ctx X : Type) (t0 : Z) (e : event) (s : mstate ctx X),
+         WrapProofs.wrap_inv c ctx X s ->
+         queue ctx X e (WrapProofs.wrap_mstate h t0 s) =
+         (WrapProofs.wrap_mstate h t0 (fst (queue ctx X e s)), inl tt) /\
+         WrapProofs.wrap_inv c ctx X (fst (queue ctx X e s)).
+Proof. exact WrapProofs.C17_wrap_queue. Qed.
+Print Assumptions C17_wrap_queue_thm.
+
+(* ... and for every history of queue / execute_once operations (as long as the root is active whenever a step starts) *)
+Theorem C17_wrap_run_thm :
+  forall (c : chart) (r h : name),
+         WrapProofs.wrap_ok c r h ->
+         forall (ctx X : Type) (exec_code exec_code' : call ctx -> ctx -> option (ctx * list event))
+           (eval_code eval_code' : call ctx -> ctx -> option bool) (emit : Z -> meta -> X -> X * option err),
+         (forall (cl : call ctx) (x : ctx), exec_code' (WrapProofs.wrap_call h cl) x = exec_code cl x) ->
+         (forall (cl : call ctx) (x : ctx), eval_code' (WrapProofs.wrap_call h cl) x = eval_code cl x) ->
+         forall (t0 : Z) (fuel : nat) (ops : list op) (s : mstate ctx X),
+         WrapProofs.wrap_inv c ctx X s ->
+         WrapProofs.wrap_alive c r ctx X exec_code eval_code emit fuel ops s ->
+         run_ops ctx X exec_code' eval_code' emit (WrapProofs.wrap c h) fuel ops
+           (WrapProofs.wrap_mstate h t0 s) =
+         (WrapProofs.wrap_mstate h t0 (fst (run_ops ctx X exec_code eval_code emit c fuel ops s)),
+          snd (run_ops ctx X exec_code eval_code emit c fuel ops s)) /\
+         WrapProofs.wrap_inv c ctx X (fst (run_ops ctx X exec_code eval_code emit c fuel ops s)).
+Proof. exact WrapProofs.C17_wrap_run. Qed.
+Print Assumptions C17_wrap_run_thm.
+
+(* which holds when no step but possibly the last one raises *)
+Theorem C17_wrap_run_errfree_thm :
+  forall (c : chart) (r h : name),
+         WrapProofs.wrap_ok c r h ->
+         forall (ctx X : Type) (exec_code exec_code' : call ctx -> ctx -> option (ctx * list event))
+           (eval_code eval_code' : call ctx -> ctx -> option bool) (emit : Z -> meta -> X -> X * option err),
+         (forall (cl : call ctx) (x : ctx), exec_code' (WrapProofs.wrap_call h cl) x = exec_code cl x) ->
+         (forall (cl : call ctx) (x : ctx), eval_code' (WrapProofs.wrap_call h cl) x = eval_code cl x) ->
+         forall (t0 : Z) (fuel : nat) (ops : list op) (s : mstate ctx X),
+         WrapProofs.wrap_inv c ctx X s ->
+         WrapProofs.root_active r ctx X s ->
+         Forall WrapProofs.is_inl (removelast (snd (run_ops ctx X exec_code eval_code emit c fuel ops s))) ->
+         run_ops ctx X exec_code' eval_code' emit (WrapProofs.wrap c h) fuel ops
+           (WrapProofs.wrap_mstate h t0 s) =
+         (WrapProofs.wrap_mstate h t0 (fst (run_ops ctx X exec_code eval_code emit c fuel ops s)),
+          snd (run_ops ctx X exec_code eval_code emit c fuel ops s)) /\
+         WrapProofs.wrap_inv c ctx X (fst (run_ops ctx X exec_code eval_code emit c fuel ops s)).
+Proof. exact WrapProofs.C17_wrap_run_errfree. Qed.
+Print Assumptions C17_wrap_run_errfree_thm.
+
+(* the first macro step: the wrapped chart enters h and then does exactly what c does *)
+Theorem C17_wrap_init_thm :
+  forall (c : chart) (r h : name),
+         WrapProofs.wrap_ok c r h ->
+         r <> "" ->
+         forall (ctx X : Type) (exec_code exec_code' : call ctx -> ctx -> option (ctx * list event))
+           (eval_code eval_code' : call ctx -> ctx -> option bool) (emit : Z -> meta -> X -> X * option err),
+         (forall (cl : call ctx) (x : ctx), exec_code' (WrapProofs.wrap_call h cl) x = exec_code cl x) ->
+         (forall (cl : call ctx) (x : ctx), eval_code' (WrapProofs.wrap_call h cl) x = eval_code cl x) ->
+         (forall (t : Z) (x : X), emit t (MEntered h) x = (x, None)) ->
+         forall (fuel : nat) (now : Z) (s0 : mstate ctx X) (m : option macrostep),
+         i_initialized (m_i s0) = false ->
+         i_config (m_i s0) = [] ->
+         i_entry (m_i s0) = [] ->
+         i_idle (m_i s0) = [] ->
+         WrapProofs.memK c (i_memory (m_i s0)) ->
+         snd (execute_once ctx X exec_code eval_code emit c fuel now s0) = inl m ->
+         let s1 := fst (execute_once ctx X exec_code eval_code emit c fuel now s0) in
+         exists T : list (obs ctx),
+           m_tr s1 = (T ++ ObMeta (MStepStarted now) :: m_tr s0)%list /\
+           execute_once ctx X exec_code' eval_code' emit (WrapProofs.wrap c h) (S fuel) now
+             {| m_i := m_i s0; m_x := m_x s0; m_tr := map (WrapProofs.wrap_obs h) (m_tr s0) |} =
+           ({|
+              m_i := WrapProofs.wrap_state h now (m_i s1);
+              m_x := m_x s1;
+              m_tr :=
+                map (WrapProofs.wrap_obs h) T ++
+                WrapProofs.init_extra h ctx (i_id (m_i s0)) now ++
+                ObMeta (MStepStarted now) :: map (WrapProofs.wrap_obs h) (m_tr s0)
+            |}, inl (WrapProofs.add_h h m)) /\
+           WrapProofs.wrap_inv c ctx X s1 /\ WrapProofs.root_active r ctx X s1.
+Proof. exact WrapProofs.C17_wrap_init. Qed.
+Print Assumptions C17_wrap_init_thm.
+
+(* the hypothesis "the root has no final child" is needed (witness): a final child of the ROOT empties the configuration, under a host it does not - the reason why the check skips such guests *)
+Theorem C17_wrap_step_final_child_refuted_thm :
+  exists (c : chart) (r : name) (h : string),
+           C02Proofs.wf_chart_b c = true /\
+           root c = Some r /\
+           h <> "" /\ state_for c h = None /\ ~ WrapProofs.WrapRefutations.wrap_step_statement c r h.
+Proof. exact WrapProofs.WrapRefutations.C17_wrap_step_final_child_refuted. Qed.
+Print Assumptions C17_wrap_step_final_child_refuted_thm.
+
+(* and so is "the root is active": after an exception in the middle of a step that exits the root the two interpreters differ (witness) *)
+Theorem C17_wrap_run_root_active_needed_thm :
+  WrapProofs.wrap_ok WrapProofs.WrapRefutations.c_loop "r" "H" /\
+         (forall (cl : call nat) (x : nat),
+          WrapProofs.WrapRefutations.exec_boom (WrapProofs.wrap_call "H" cl) x =
+          WrapProofs.WrapRefutations.exec_boom cl x) /\
+         WrapProofs.wrap_inv WrapProofs.WrapRefutations.c_loop nat nat
+           (fst
+              (WrapProofs.WrapRefutations.runb WrapProofs.WrapRefutations.c_loop [OpStep 0]
+                 WrapProofs.WrapExample.s0)) /\
+         WrapProofs.root_active "r" nat nat
+           (fst
+              (WrapProofs.WrapRefutations.runb WrapProofs.WrapRefutations.c_loop [OpStep 0]
+                 WrapProofs.WrapExample.s0)) /\
+         snd
+           (WrapProofs.WrapRefutations.runb WrapProofs.WrapRefutations.c_loop
+              WrapProofs.WrapRefutations.loop_ops
+              (fst
+                 (WrapProofs.WrapRefutations.runb WrapProofs.WrapRefutations.c_loop [
+                    OpStep 0] WrapProofs.WrapExample.s0))) =
+         [inr (ECode CAction (OTrans 0) 0);
+          inl
+            (Some
+               (2%Z,
+                [{|
+                   ms_event := Some (WrapProofs.WrapExample.ev "zzz");
+                   ms_trans := None;
+                   ms_entered := [];
+                   ms_exited := [];
+                   ms_sent := []
+                 |}]))] /\
+         i_config
+           (m_i
+              (fst
+                 (WrapProofs.WrapRefutations.runb WrapProofs.WrapRefutations.c_loop
+                    WrapProofs.WrapRefutations.loop_ops
+                    (fst
+                       (WrapProofs.WrapRefutations.runb WrapProofs.WrapRefutations.c_loop [
+                          OpStep 0] WrapProofs.WrapExample.s0))))) = [] /\
+         WrapProofs.WrapExample.shape
+           (snd
+              (WrapProofs.WrapRefutations.runb (WrapProofs.wrap WrapProofs.WrapRefutations.c_loop "H")
+                 WrapProofs.WrapRefutations.loop_ops
+                 (WrapProofs.wrap_mstate "H" 0
+                    (fst
+                       (WrapProofs.WrapRefutations.runb WrapProofs.WrapRefutations.c_loop [
+                          OpStep 0] WrapProofs.WrapExample.s0))))) = [[]; [([], []); (["r"], []); (["a"], [])]].
+Proof. exact WrapProofs.WrapRefutations.C17_wrap_run_root_active_needed. Qed.
+Print Assumptions C17_wrap_run_root_active_needed_thm.
+
+(* the decidable form of the hypotheses *)
+Theorem wrap_okb_sound_thm :
+  forall (c : chart) (r h : name), WrapProofs.wrap_okb c r h = true -> WrapProofs.wrap_ok c r h.
+Proof. exact WrapProofs.wrap_okb_sound. Qed.
+Print Assumptions wrap_okb_sound_thm.
